@@ -57,10 +57,18 @@ def confirm(name):
 def detect(name, checks):
     d = os.path.join(V, 'seeded', name)
     m = load(name)
-    rc, out = sh(['git', '-C', REPO, 'status', '--porcelain', '--untracked-files=no'])
+    wt = None
+    if checks and checks[0] == '--wt':
+        # same procedure on a scratch worktree of /repo HEAD (VERIF_REPO points the checks at it), so that /repo itself stays
+        # untouched while a long run against /repo is in progress
+        checks = checks[1:]
+        wt = '/tmp/ds-%s-%d' % (name, os.getpid())
+        sh(['git', '-C', REPO, 'worktree', 'add', '-q', wt, 'HEAD'])
+    target = wt or REPO
+    rc, out = sh(['git', '-C', target, 'status', '--porcelain', '--untracked-files=no'])
     if out.strip():
         print('/repo is not clean'); sys.exit(2)
-    rc, out = sh(['git', '-C', REPO, 'apply', os.path.join(d, 'patch.diff')])
+    rc, out = sh(['git', '-C', target, 'apply', os.path.join(d, 'patch.diff')])
     if rc != 0:
         print('patch does not apply'); sys.exit(2)
     try:
@@ -69,6 +77,8 @@ def detect(name, checks):
             if ':' in c:
                 c, only = c.split(':', 1)
             env = dict(os.environ)
+            if wt:
+                env['VERIF_REPO'] = wt
             if only:
                 env['VERIF_ONLY'] = only
             t = time.time()
@@ -83,7 +93,10 @@ def detect(name, checks):
         m['detected_by'] = sorted({x['check'] for x in m.get('detection', []) if x['exit'] == 1})
         save(name, m)
     finally:
-        sh(['git', '-C', REPO, 'checkout', '--', '.'])
+        if wt:
+            sh(['git', '-C', REPO, 'worktree', 'remove', '--force', wt])
+        else:
+            sh(['git', '-C', REPO, 'checkout', '--', '.'])
         sh(['git', '-C', V, 'checkout', '--', 'evidence'])   # evidence of runs on a modified tree is not kept
 
 if __name__ == '__main__':
